@@ -108,8 +108,12 @@ def gen_qp_run(rng):
     p, xs, Lg, kind = gen_qp(rng)
     n = p['n']
     x0 = [_dy(rng, -4, 4) for _ in range(n)]
-    mode = rng.choice(['fixed', 'fixed', 'L0', 'est'])
-    if mode == 'fixed':
+    mode = rng.choice(['fixed', 'fixed', 'L0', 'est', 'tight'])
+    if mode == 'tight':
+        # valid but tight cap (L_f ≤ Gershgorin = L_max) that the doubling sequence from L₀ jumps over
+        lip = {'L0': f2h(Lg * rng.choice([0.6, 0.7, 0.8]) * 2.0 ** -rng.choice([0, 2, 5])), 'Lmin': f2h(1e-5),
+               'Lmax': f2h(Lg * rng.choice([1.0, 1.125]))}
+    elif mode == 'fixed':
         Lf = Lg * rng.choice([1.0, 1.0, 2.0])
         lip = {'Lmin': f2h(Lf), 'Lmax': f2h(Lf)}
     elif mode == 'L0':
@@ -183,7 +187,7 @@ def is_psd(M):
 def gen_chain(rng, tier):
     n = rng.choice([10, 100, 1000] if tier == 'thorough' else [10, 100])
     Lc = rng.choice([4.0, 4.0, 1.0, 16.0])
-    mode = rng.choice(['fixed', 'bt'])
+    mode = rng.choice(['fixed', 'bt', 'tight'])
     return chain_op(n, Lc, mode, rng.choice([200, 400]), noacc=rng.choice([0, 0, 1]),
                     box=rng.random() < 0.3, Lgf=rng.choice([1.0, 0.95]))
 
@@ -194,6 +198,9 @@ def chain_op(n, Lc, mode, iters, noacc=0, box=False, Lgf=1.0, xevery=100):
                'xevery': str(xevery), 'xfirst': '4', 'oot': '0'})
     if mode == 'fixed':
         op['Lmin'] = f2h(Lc); op['Lmax'] = f2h(Lc)
+    elif mode == 'tight':
+        # valid but tight cap: L_f ≤ L_max, while the doubling sequence L₀·2ʲ jumps over [L_f, L_max]
+        op['L0'] = f2h(Lc * 0.6 / 16); op['Lmin'] = f2h(1e-5); op['Lmax'] = f2h(Lc * 1.125)
     else:
         op['L0'] = f2h(Lc / 64); op['Lmin'] = f2h(1e-5); op['Lmax'] = f2h(1e20)
     if box:
